@@ -21,7 +21,7 @@ class Cfg:
 
     def token(self):
         return ",".join([hx(self.base), ohx(self.disc), "1" if self.ts else "0", ohx(self.sfx),
-                         "1" if self.append else "0", "~" if self.cap is None else str(self.cap),
+                         "1" if self.append else "0", "~" if self.cap is None else str(self.cap),   # cap: int, or "a<pool>.<msg>" (async)
                          self.crit or "~", self.naming, self.cleanup, "1" if self.utc else "0",
                          "1" if self.link else "0", "1" if self.bg else "0", "1" if self.crlf else "0"])
 
